@@ -37,8 +37,83 @@ def plan(tier, seed):
     return [{"seed": seed * 1001303 + i, "len": 60 if tier == "quick" else 120} for i in range(n)]
 
 
+class PoisonRNG(np.random.Generator):
+    """stands in for the library's module-level generator: counts every use"""
+
+    def __init__(self):
+        super().__init__(np.random.PCG64(12345))
+        self.uses = 0
+
+    def __deepcopy__(self, memo):
+        return self
+
+    def _hit(self):
+        self.uses += 1
+
+
+for _name in ("choice", "uniform", "random", "normal", "standard_normal", "poisson", "integers", "gamma", "exponential", "binomial", "shuffle", "permutation"):
+
+    def _mk(name):
+        base = getattr(np.random.Generator, name)
+
+        def f(self, *a, **k):
+            self.uses += 1
+            return base(self, *a, **k)
+
+        return f
+
+    setattr(PoisonRNG, _name, _mk(_name))
+
+POISON = None
+
+
+def install_poison():
+    """replace the library's global generator everywhere it is bound: module globals and function defaults"""
+    global POISON
+    if POISON is not None:
+        return POISON
+    import importlib
+    import inspect
+    import pkgutil
+
+    import gbigsmiles
+    import gbigsmiles.core as core
+
+    orig = core._GLOBAL_RNG
+    POISON = PoisonRNG()
+    for m in pkgutil.iter_modules(gbigsmiles.__path__):
+        try:
+            mod = importlib.import_module("gbigsmiles." + m.name)
+        except Exception:
+            continue
+        if getattr(mod, "_GLOBAL_RNG", None) is orig:
+            mod._GLOBAL_RNG = POISON
+        for _, obj in inspect.getmembers(mod):
+            funcs = []
+            if inspect.isfunction(obj):
+                funcs.append(obj)
+            elif inspect.isclass(obj):
+                for _, f in inspect.getmembers(obj):
+                    if isinstance(f, property) and f.fget is not None:
+                        f = f.fget
+                    if inspect.isfunction(f):
+                        funcs.append(f)
+            for f in funcs:
+                seen = set()
+                while f is not None and id(f) not in seen:
+                    seen.add(id(f))
+                    d = getattr(f, "__defaults__", None)
+                    if d and any(x is orig for x in d):
+                        f.__defaults__ = tuple(POISON if x is orig else x for x in d)
+                    f = getattr(f, "__wrapped__", None)
+    if getattr(gbigsmiles, "_GLOBAL_RNG", None) is orig:
+        gbigsmiles._GLOBAL_RNG = POISON
+    return POISON
+
+
 def setup_worker():
     W.install()
+    install_poison()
 
 
 # ------------------------------------------------------------------ deep fingerprint ----------
@@ -150,6 +225,7 @@ def run_case(case):
 
     def compare_generation(obj, i, s, step, what="generate"):
         trace.reset()
+        POISON.uses = 0
         try:
             with time_limit(15):
                 g = obj.generate(rng=W.spy(s))
@@ -159,6 +235,9 @@ def run_case(case):
             return
         except Exception as exc:
             rec = {"status": "exc", "exc": type(exc).__name__, "log": digest(trace.events)}
+        if POISON.uses:
+            bad("c10.global-generator-used-although-one-was-supplied", f"{what} of object {i} with an explicit generator (seed {s}) drew {POISON.uses} times from the library's module-level generator", step)
+        cnt["global_generator_watch"] += 1
         b = base[f"{texts[i]}|{s}"]
         cnt["seeded_generations_compared"] += 1
         if b["status"] == "watchdog":
@@ -190,9 +269,9 @@ def run_case(case):
                     except Exception:
                         pass
             elif op == "perturb_global":
-                core._GLOBAL_RNG.random(rng.randint(1, 50))
+                POISON.random(rng.randint(1, 50))
                 try:
-                    core._GLOBAL_RNG.bit_generator.state = np.random.PCG64(rng.randrange(1 << 30)).state
+                    POISON.bit_generator.state = np.random.PCG64(rng.randrange(1 << 30)).state
                 except Exception:
                     pass
             elif op == "str":
